@@ -147,25 +147,17 @@ vk_harness!(c09_restore_n_resolves_to_first_constant_at_or_after, {
 // ---------------------------------------------------------------------------------------------------------------
 // C01 / C20: symbol relocation when statement fragments are appended, and resolution of branches by line number
 
-//@ prop: C01 C20
-//@ tier: quick
-//@ unwind: 10
-//@ encodes: Link::append (relocation of local symbols and of unresolved references); Link::next_symbol; Link::push_jump; Link::push_ifnot; Link::push_goto; Link::push_symbol; Link::link
-//@ bounds: parent with 0..=2 local labels already allocated and 0..=1 instructions; appended fragment = [GOTO <line L>, IFNOT <own local label>, label:] with L any line number 0..=65529 (0 included); line L defined after the fragment
-vk_harness!(c20_append_relocates_local_labels_only, {
+/// `k` local labels already allocated in the parent (one per earlier IF / FOR / GOSUB / ON / WHILE / DEF of the same compile),
+/// one instruction already emitted; the control skeleton is concrete, the referenced line number is symbolic.
+fn append_relocation(k: usize) {
     let mut parent = Link::default();
-    let k = vk::any_below(3);
     let mut i = 0;
     while i < k {
-        // labels allocated by earlier statements of the same compile (IF, FOR, GOSUB ... each take one)
         let s = parent.next_symbol();
         parent.push_symbol(s);
         i += 1;
     }
-    let pre = vk::any_below(2) as usize;
-    if pre == 1 {
-        parent.push(Opcode::End).unwrap();
-    }
+    parent.push(Opcode::End).unwrap();
     let line = vk::any_u16();
     vk::assume(line <= 65529);
     // the fragment of one statement: a branch to a line number, and a branch to a label local to the fragment
@@ -181,16 +173,35 @@ vk_harness!(c20_append_relocates_local_labels_only, {
     let line_addr = parent.ops.len();
     let errors = parent.link();
     vk_check!(errors.is_empty(), "C20: all references resolve");
-    match parent.ops.get(pre) {
+    match parent.ops.get(1) {
         Some(Opcode::Jump(a)) => vk_check!(*a == line_addr, "C20: a branch to line n resolves to line n's code wherever the fragment is placed (line 0 included)"),
         _ => vk_check!(false, "C20: the GOTO instruction was lost"),
     }
-    match parent.ops.get(pre + 1) {
-        Some(Opcode::IfNot(a)) => vk_check!(*a == pre + 2, "C01: a statement-local label moves with its fragment"),
+    match parent.ops.get(2) {
+        Some(Opcode::IfNot(a)) => vk_check!(*a == 3, "C01: a statement-local label moves with its fragment"),
         _ => vk_check!(false, "C01: the IFNOT instruction was lost"),
     }
-    vk_cover!(line == 0 && k > 0, "reach: branch to line 0 after other labels were allocated");
-    vk_cover!(k == 2 && pre == 1, "reach: offset parent");
+    vk_cover!(line == 0, "reach: branch to line 0");
+    vk_cover!(line == 65529, "reach: branch to the last line number");
     core::mem::forget(parent);
     core::mem::forget(errors);
+}
+
+//@ prop: C01 C20
+//@ tier: quick
+//@ unwind: 10
+//@ encodes: Link::append (relocation of local symbols and of unresolved references); Link::next_symbol; Link::push_goto; Link::push_ifnot; Link::push_symbol; Link::link
+//@ bounds: parent without local labels; appended fragment = [GOTO <line L>, IFNOT <own label>, label:], L any line number 0..=65529; line L defined after the fragment
+vk_harness!(c20_append_relocation_first_statement, {
+    append_relocation(0);
 });
+
+//@ prop: C01 C20
+//@ tier: quick
+//@ unwind: 10
+//@ encodes: Link::append (relocation of local symbols and of unresolved references); Link::next_symbol; Link::push_goto; Link::push_ifnot; Link::push_symbol; Link::link
+//@ bounds: parent with ONE local label already allocated; appended fragment = [GOTO <line L>, IFNOT <own label>, label:], L any line number 0..=65529
+vk_harness!(c20_append_relocation_after_one_label, {
+    append_relocation(1);
+});
+
